@@ -1352,6 +1352,11 @@ func (g *c16G) argsCase() c16ArgsCase {
 	} else {
 		t.Stdin = "null"
 	}
+	// the mode in which the main input is read must not change how the named files and values are read
+	// (the stdin text "null" is one input value in every mode)
+	if g.r.IntN(3) == 0 {
+		others = append(others, item{[][]string{{"-R"}, {"--raw-input"}, {"--stream"}, {"-s"}, {"--slurp"}, {"--yaml-input"}, {"-R", "-s"}, {"--stream", "-s"}, {"--yaml-input", "-s"}}[g.r.IntN(9)], 'f'})
+	}
 	front := g.r.IntN(3) == 0 // conventional layout: all options first
 	for _, o := range others {
 		at := 0
